@@ -643,8 +643,9 @@ def formatnum_fn(
     else:
         sep = ctx.LOCALIZATION_DATA["grouping_separator"]
 
-    if sep in arg0:
-        # separator only allowed when R)eversing
+    if sep and sep != "." and sep in arg0:
+        # separator only allowed when R)eversing; a locale whose separator
+        # is empty or "." cannot be told apart from the raw decimal point
         return arg0
 
     decimal_point = ctx.LOCALIZATION_DATA["decimal_point"]
